@@ -1,5 +1,5 @@
 //@PROBE file=src/utils/bbox.rs test=verif_probe_bbox_iou_exact_c08 clauses=bbox_iou_exact
-//@BOUND 3000 pseudo-random pairs (sizes 0.1..1e3, aspect 0.2..4, angles None / 0 / multiples of pi/2 / arbitrary incl. |a| > 2pi, equal angles for elongated boxes, partner placed within reach: overlapping, nested, touching, edge sharing, identical, disjoint) at the origin and translated by (8192, -9000) on a dyadic grid; reference: independent f64 convex clipping in the first box's local frame (tolerance 1e-4 x smaller area)
+//@BOUND 3000 pseudo-random pairs (sizes 0.1..1e3, aspect 0.2..4, angles None / 0 / multiples of pi/2 / arbitrary incl. |a| > 2pi, equal angles for elongated boxes, partner placed within reach: overlapping, nested, touching, edge sharing, identical, disjoint) at the origin and translated by (8192, -9000) on a dyadic grid; reference: independent f64 convex clipping in the first box's local frame (tolerance 1e-4 x smaller area); the IoU is absent exactly when intersection() is 0; plus equal squares of side 0.1..1000 (axis-aligned and rotated) sharing a corner region of 1%..50% of their side (marginal overlaps at every scale)
 #[cfg(test)]
 mod verif_probe_bbox_iou_exact_c08 {
     // Bounded stand-in for the numeric clauses of C08 that the Kani harnesses cannot pin (trigonometry, f64 clipping):
@@ -67,6 +67,7 @@ mod verif_probe_bbox_iou_exact_c08 {
                 if Universal2DBox::too_far(&a, &b) && want > tol { failures.push(format!("{}: bbox_iou_exact.too_far_never_rejects_an_overlap: rejected although the boxes overlap by {}", ctx, want)); }
                 let iou = Universal2DBox::calculate_metric_object(&Some(&a), &Some(&b));
                 let wiou = want / (a.area() as f64 + b.area() as f64 - want);
+                if iou.is_none() != (got == 0.0) { failures.push(format!("{}: bbox_iou_exact.iou_absent_exactly_when_the_intersection_is_zero: intersection() = {} but the IoU is {:?}", ctx, got, iou)); }
                 match iou {
                     None => if want > 10.0 * tol { failures.push(format!("{}: bbox_iou_exact.iou_absent_only_without_overlap: absent although the boxes overlap by {}", ctx, want)); },
                     Some(v) => {
@@ -87,6 +88,25 @@ mod verif_probe_bbox_iou_exact_c08 {
             let i1 = Universal2DBox::calculate_metric_object(&Some(&at), &Some(&bt));
             match (i0, i1) { (Some(x), Some(y)) => if (x - y).abs() > 2e-4 { failures.push(format!("PROBE input: pair #{}: bbox_iou_exact.iou_invariant_under_common_translation: {} at the origin, {} after translating both boxes by (8192, -9000)", it, x, y)); }, (None, None) => {}, (x, y) => if x.unwrap_or(0.0).max(y.unwrap_or(0.0)) > 1e-3 { failures.push(format!("PROBE input: pair #{}: bbox_iou_exact.iou_invariant_under_common_translation: {:?} vs {:?}", it, x, y)); } }
         }
+        // ---- marginal overlaps at every scale: two equal squares (side s, common angle) sharing a corner region of f x f of their side
+        for s in [0.1f32, 0.3, 1.0, 30.0, 1000.0] { for f in [0.01f32, 0.03, 0.1, 0.5] { for ang in [None, Some(0.0f32), Some(0.7), Some(-2.2)] {
+            cases += 1;
+            let t = ang.unwrap_or(0.0);
+            let (dx, dy) = (s * (1.0 - f), s * (1.0 - f));
+            let a = Universal2DBox::new(10.0, 10.0, ang, 1.0, s);
+            let b = Universal2DBox::new(10.0 + dx * t.cos() - dy * t.sin(), 10.0 + dx * t.sin() + dy * t.cos(), ang, 1.0, s);
+            let ctx = format!("PROBE input: squares of side {} at angle {:?} sharing a corner of {} of their side: A=({},{}) B=({},{})", s, ang, f, a.xc, a.yc, b.xc, b.yc);
+            let want = reference(&a, &b);
+            let got = Universal2DBox::intersection(&a, &b);
+            let area = (s as f64) * (s as f64);
+            if (got - want).abs() > 1e-3 * want + 1e-9 * area { failures.push(format!("{}: bbox_iou_exact.intersection_is_the_true_area: {} vs reference {}", ctx, got, want)); continue; }
+            let iou = Universal2DBox::calculate_metric_object(&Some(&a), &Some(&b));
+            let wiou = want / (2.0 * area - want);
+            match iou {
+                None => failures.push(format!("{}: bbox_iou_exact.iou_absent_only_without_overlap: absent although the boxes overlap by {} (IoU {})", ctx, want, wiou)),
+                Some(v) => if (v as f64 - wiou).abs() > 2e-3 * wiou + 1e-9 { failures.push(format!("{}: bbox_iou_exact.iou_is_intersection_over_union: {} vs reference {}", ctx, v, wiou)); },
+            }
+        } } }
         eprintln!("PROBE cases={} nontrivial={}", cases, nontrivial);
         for f in failures.iter().take(12) { eprintln!("{}", f); }
         assert!(failures.is_empty(), "PROBE found {} failing inputs; first: {}", failures.len(), failures[0]);
